@@ -304,7 +304,11 @@ let c09 (h : shist) : string list =
       let provisioned = ref 0 and want = ref 0 and reserved = ref ic.reserved in
       let since = ref (-1) in       (* the loop has been free to poll since this instant, nothing happened since *)
       let alive = ref false and reported = ref false in
-      let cond () = Hashtbl.length counted < !want && Hashtbl.length counted < !provisioned in
+      (* what is counted, by the larger of two estimates: the allocated/released events, and the last published capacity
+         (a released event may come from the timer of an earlier lease of a partition that has been acquired again) *)
+      let capv = ref (-1) in
+      let held () = max (Hashtbl.length counted) (if !capv < 0 then 0 else (!capv - !reserved) / f) in
+      let cond () = held () < !want && held () < !provisioned in
       let close t what =
         if !since >= 0 && !alive && not !reported && cond () && t - !since >= mi then begin
           reported := true;
@@ -321,7 +325,10 @@ let c09 (h : shist) : string list =
                    (* the state that counts is the one after everything logged at this very instant *)
                    since := ln.t
                | ["act"; "giveme"; v] ->
-                   want := ceil_div (max 0 (ios v - !reserved)) f; if !since >= 0 && ln.t > !since then since := -1
+                   let w' = ceil_div (max 0 (ios v - !reserved)) f in
+                   (* a call that leaves the number of partitions wanted as it was changes nothing for the loop *)
+                   if w' <> !want && !since >= 0 && ln.t > !since then since := -1;
+                   want := w'
                | ["act"; ("stop" | "crash")] -> close ln.t "no lease request until the instance is stopped,"; alive := false; since := -1
                | ["act"; "setreserved"; v] -> reserved := ios v; since := -1
                | ["act"; "probe"] -> ()
@@ -331,6 +338,8 @@ let c09 (h : shist) : string list =
                | ["ev"; "allocated"; p] -> Hashtbl.replace counted (ios p) (); if ln.t > !since then since := -1
                | ["ev"; "released"; p] -> Hashtbl.remove counted (ios p); if ln.t > !since then since := -1
                | ["ev"; "shutdown"] -> alive := false; since := -1
+               | ["ev"; "capacity"; v] -> capv := ios v
+               | ["ev"; "provision-done"; _] -> if !alive then since := ln.t   (* v2: the loop is back at its top *)
                | _ -> ())
             end;
             go rest in
